@@ -12,6 +12,7 @@ from harness.interp_gen import Gen
 PROP = 'C06'
 LEAN_MODULES = ['Glom.Props.C06']
 FACT_FILES = ['C06Facts', 'c06']
+THEOREMS_PER_MODULE = {'Glom.Props.C06': 38}
 READY = True
 RULE = ('one case = one history of 20-200 operations on one interpreter whose caches are reset first: direct '
         'Path.from_text calls on a pool of texts (with "*" / "**" / empty / repeated segments), glom calls drawn from a '
